@@ -7,7 +7,11 @@ impl<R: Round, const B: Word> Shl<isize> for FBig<R, B> {
     fn shl(mut self, rhs: isize) -> Self::Output {
         assert_finite(&self.repr);
         if !self.repr.is_zero() {
-            self.repr.exponent += rhs;
+            self.repr.exponent = self
+                .repr
+                .exponent
+                .checked_add(rhs)
+                .expect("exponent overflow");
         }
         self
     }
@@ -18,7 +22,11 @@ impl<R: Round, const B: Word> ShlAssign<isize> for FBig<R, B> {
     fn shl_assign(&mut self, rhs: isize) {
         assert_finite(&self.repr);
         if !self.repr.is_zero() {
-            self.repr.exponent += rhs;
+            self.repr.exponent = self
+                .repr
+                .exponent
+                .checked_add(rhs)
+                .expect("exponent overflow");
         }
     }
 }
@@ -29,7 +37,11 @@ impl<R: Round, const B: Word> Shr<isize> for FBig<R, B> {
     fn shr(mut self, rhs: isize) -> Self::Output {
         assert_finite(&self.repr);
         if !self.repr.is_zero() {
-            self.repr.exponent -= rhs;
+            self.repr.exponent = self
+                .repr
+                .exponent
+                .checked_sub(rhs)
+                .expect("exponent overflow");
         }
         self
     }
@@ -40,7 +52,11 @@ impl<R: Round, const B: Word> ShrAssign<isize> for FBig<R, B> {
     fn shr_assign(&mut self, rhs: isize) {
         assert_finite(&self.repr);
         if !self.repr.is_zero() {
-            self.repr.exponent -= rhs;
+            self.repr.exponent = self
+                .repr
+                .exponent
+                .checked_sub(rhs)
+                .expect("exponent overflow");
         }
     }
 }
